@@ -27,7 +27,7 @@ ASSUMPTIONS = [
     "invertIntervalList: inputs are disjoint, inside [lo,hi]; an empty list is only meaningful with both bounds",
 ]
 REQUIRED_CLASSES = ["views:tiny_gap", "find:regex_match", "values_in_intervals:sample_on_boundary", "values_at_points:tie",
-                    "overlap_grid:touching", "invert:touching", "equality:perturbed_timestamp", "validate:corrupted"]
+                    "overlap_grid:touching", "invert:touching", "equality:perturbed_timestamp", "equality:perturbed_numeric_label", "validate:corrupted"]
 
 
 # ------------------------------------------------------------------------ find
@@ -341,9 +341,9 @@ def run_invert(case):
 @st.composite
 def equality_cases(draw):
     style = draw(gen.STYLES_ARITH)
-    spec = draw(gen.textgrid(style=style, max_tiers=3, label=gen.AB))
+    spec = draw(gen.textgrid(style=style, max_tiers=3, label=st.sampled_from(["a", "b", "132", "7", "1000", "nan", "0"])))
     return {"tg": spec, "tier": draw(st.integers(0, 5)), "entry": draw(st.integers(0, 9)), "field": draw(st.integers(0, 2)),
-            "what": draw(st.sampled_from(["none", "name", "type", "label", "count", "timestamp", "timestamp", "span", "order"]))}
+            "what": draw(st.sampled_from(["none", "name", "type", "label", "label_numeric", "count", "timestamp", "timestamp", "span", "order"]))}
 
 
 def _perturb_time(x):
@@ -394,6 +394,14 @@ def run_equality(case):
         if what == "label":
             e[-1] = e[-1] + "z"
             cl = "perturbed_label"
+        elif what == "label_numeric":
+            # another spelling of the same number is another label
+            respell = {"132": "132.0", "7": "07", "1000": "1e3", "0": "-0"}
+            cand = [x for x in t["entries"] if x[-1] in respell]
+            if not cand:
+                return {"classes": ["skip"], "nontrivial": False}
+            cand[0][-1] = respell[cand[0][-1]]
+            cl = "perturbed_numeric_label"
         elif what == "count":
             del t["entries"][ei]
             cl = "perturbed_count"
